@@ -94,9 +94,15 @@ Definition fs_mkdir (p : str) (f : fs) : option errno * fs :=
             end
   end.
 
+Definition missing_errno (p : str) (f : fs) : errno :=
+  match parent_is_dir f p with
+  | Some ENOTDIR => ENOTDIR       (* a component of the prefix is not a directory *)
+  | _ => ENOENT
+  end.
+
 Definition fs_rmdir (p : str) (f : fs) : option errno * fs :=
   match lookup f p with
-  | None => (Some ENOENT, f)
+  | None => (Some (missing_errno p f), f)
   | Some NDir => match children f p with
                  | [] => (None, del_dent p f)
                  | _ => (Some ENOTEMPTY, f)
@@ -106,7 +112,7 @@ Definition fs_rmdir (p : str) (f : fs) : option errno * fs :=
 
 Definition fs_unlink (p : str) (f : fs) : option errno * fs :=
   match lookup f p with
-  | None => (Some ENOENT, f)
+  | None => (Some (missing_errno p f), f)
   | Some NDir => (Some EISDIR, f)
   | Some _ => (None, del_dent p f)
   end.
